@@ -18,10 +18,11 @@ if TYPE_CHECKING:
 
 
 DEFAULT_INNER_TAG_MAP = {
-    "for": ["break", "continue"],
+    "for": ["break", "continue", "else"],
     "if": ["else", "elsif"],
-    "case": ["when"],
+    "case": ["when", "else"],
     "unless": ["else", "elsif"],
+    "translate": ["plural"],
 }
 
 
@@ -128,7 +129,7 @@ class TagAnalysis:
 
         # We use this to find unknown "end" tags.
         registered_end_blocks = {
-            tag.end for tag in env.tags.values() if tag.block and tag.end
+            tag.end or f"end{tag.name}" for tag in env.tags.values() if tag.block
         }
 
         for token in tokens:
